@@ -26,17 +26,18 @@ fn xx64(b: &[u8]) -> u64 {
 pub fn describe_pages(data: &[u8]) -> Vec<J> {
     let n = data.len() / PAGE;
     let mut out: Vec<J> = vec![json!({"t": "raw"}); n];
-    // a single page that is a sealed blob index
-    if n == 1 {
-        let p = &data[..PAGE];
-        if p.iter().all(|b| *b == 0) {
-            return vec![json!({"t": "zero"})];
-        }
+    if n == 1 && data[..PAGE].iter().all(|b| *b == 0) {
+        return vec![json!({"t": "zero"})];
+    }
+    // a write that is a sealed blob index (one page by default; `with_blob_index_size` makes it several pages: the
+    // checksum covers all of them, the pages after the first are continuation pages)
+    if (1..=4).contains(&n) {
+        let p = &data[..n * PAGE];
         let sum = u64::from_be_bytes(p[0..8].try_into().unwrap());
         if xx64(&p[8..]) == sum {
             let count = u32::from_be_bytes(p[8..12].try_into().unwrap()) as usize;
             let mut es = vec![];
-            for i in 0..count.min((PAGE - 12) / 24) {
+            for i in 0..count.min((n * PAGE - 12) / 24) {
                 let e = &p[12 + i * 24..12 + (i + 1) * 24];
                 let off = u32::from_be_bytes(e[16..20].try_into().unwrap()) as usize;
                 let len = u32::from_be_bytes(e[20..24].try_into().unwrap()) as usize;
@@ -47,7 +48,9 @@ pub fn describe_pages(data: &[u8]) -> Vec<J> {
                     "len": len.div_ceil(PAGE),
                 }));
             }
-            return vec![json!({"t": "idx", "es": es})];
+            let mut v = vec![json!({"t": "idx", "es": es})];
+            v.extend((1..n).map(|_| json!({"t": "idxc"})));
+            return v;
         }
     }
     // otherwise: entries laid out back to back, each page aligned
